@@ -257,6 +257,19 @@ Theorem x_apply_conserve_error (o : xop S) (s : smN S) :
   x_apply S o s = XErrConserve S.
 Proof. unfold x_apply. intros ->. reflexivity. Qed.
 
+(* every entry of the result array is the fibre operator applied to the fibres cut out of the arrays *)
+Theorem x_apply_entry (o : xop S) (s : smN S) sh d m : x_apply S o s = XOk S sh d ->
+  m < prodl (sh ++ [s_ns S s; 3]) -> nth m d k0 = x_entry S o s sh m.
+Proof.
+  unfold x_apply. intros H Hm.
+  match type of H with (if negb ?c then _ else _) = _ => destruct c end; [|discriminate]. simpl in H.
+  match type of H with (if negb ?c then _ else _) = _ => destruct c end; [|discriminate]. simpl in H.
+  destruct (bshape (x_shape S o) (set_at (x_ax S o) (nth (x_ax S o) (x_shape S o) 0) (s_shape S s))) as [osh|]; [|discriminate].
+  injection H as <- <-.
+  rewrite (nth_indep _ k0 (x_entry S o s osh 0)) by (rewrite map_length, seq_length; exact Hm).
+  rewrite (map_nth (x_entry S o s osh) (seq 0 _) 0 m), seq_nth by exact Hm. reflexivity.
+Qed.
+
 (* the constructor accepted khi  =>  it is square along the axis and every column sums to zero *)
 Theorem x_guard_accepts khishape khi axis ax : x_guard S khishape khi axis = GOk ax ->
   (2 <= length khishape)%nat /\ nth ax (removelast khishape) 0 = last khishape 0 /\
@@ -651,3 +664,113 @@ Proof.
 Qed.
 
 End Expm.
+
+(* ================================================================ Part 3: two pools, scalar rate.
+   exchange_matrix(kappa, ncomp=2) = kappa [[1,-1],[-1,1]]; the closed form
+   exp(-K t) = 1/2 [[1+e, 1-e],[1-e, 1+e]], e = exp(-2 kappa t), satisfies the oracle predicate:
+   the hypotheses are satisfiable and the pure-exchange 2-pool case needs none. *)
+Definition K2 (kappa : R) : matN Cops := fun i j => RtoC (if Nat.eqb i j then kappa else - kappa).
+Definition E2 (kappa t : R) : matN Cops := fun i j =>
+  RtoC (if Nat.eqb i j then (1 + exp (-2 * kappa * t)) / 2 else (1 - exp (-2 * kappa * t)) / 2).
+
+Ltac two_cases i j Hi Hj :=
+  destruct i as [|[|i]]; [| |exfalso; lia]; (destruct j as [|[|j]]; [| |exfalso; lia]).
+
+Lemma exchange_matrix_two kappa i j : (i < 2)%nat -> (j < 2)%nat ->
+  exchange_matrix Cops Cinv (RtoC kappa) 2 None i j = K2 kappa i j.
+Proof.
+  intros Hi Hj. two_cases i j Hi Hj; unfold exchange_matrix, kron, K2, delta; simpl; cnorm;
+    apply injective_projections; simpl; field; lra.
+Qed.
+
+Lemma two_pool_H0 kappa i j : (i < 2)%nat -> (j < 2)%nat -> E2 kappa 0 i j = @midN Cops i j.
+Proof.
+  intros Hi Hj. unfold E2, midN, delta.
+  replace (-2 * kappa * 0) with 0 by ring. rewrite exp_0.
+  two_cases i j Hi Hj; simpl; apply injective_projections; simpl; lra.
+Qed.
+
+Lemma two_pool_semigroup kappa s t i j : (i < 2)%nat -> (j < 2)%nat ->
+  E2 kappa (s + t) i j = mmulN 2 (E2 kappa s) (E2 kappa t) i j.
+Proof.
+  intros Hi Hj. unfold E2, mmulN.
+  replace (-2 * kappa * (s + t)) with (-2 * kappa * s + -2 * kappa * t) by ring. rewrite exp_plus.
+  generalize (exp (-2 * kappa * s)) (exp (-2 * kappa * t)). intros a b.
+  two_cases i j Hi Hj; simpl; cnorm; apply injective_projections; simpl; field.
+Qed.
+
+Lemma two_pool_deriv kappa t i j : (i < 2)%nat -> (j < 2)%nat ->
+  derC (fun u => E2 kappa u i j) t (mmulN 2 (moppN (K2 kappa)) (E2 kappa t) i j).
+Proof.
+  intros Hi Hj. unfold derC, E2, mmulN, moppN, K2.
+  two_cases i j Hi Hj; simpl; split; auto_derive; trivial; simpl; field.
+Qed.
+
+Theorem two_pool_is_expm kappa : is_expm 2 (moppN (K2 kappa)) (E2 kappa).
+Proof.
+  split; [|split].
+  - exact (two_pool_H0 kappa).
+  - exact (two_pool_semigroup kappa).
+  - exact (two_pool_deriv kappa).
+Qed.
+
+(* the generators of X(tau, kappa) without relaxation are exactly -K2 *)
+Lemma two_pool_generators kappa :
+  is_expm 2 (xiT_C (exchange_matrix Cops Cinv (RtoC kappa) 2 None) (fun _ => None) (fun _ => RtoC 0)) (E2 kappa) /\
+  is_expm 2 (xiL_C (exchange_matrix Cops Cinv (RtoC kappa) 2 None) (fun _ => None)) (E2 kappa).
+Proof.
+  split.
+  - apply (is_expm_ext 2 (moppN (K2 kappa))); [|exact (two_pool_is_expm kappa)].
+    intros i j Hi Hj. rewrite (xiT_pure Cops Claws). unfold moppN.
+    now rewrite (exchange_matrix_two kappa i j Hi Hj).
+  - apply (is_expm_ext 2 (moppN (K2 kappa))); [|exact (two_pool_is_expm kappa)].
+    intros i j Hi Hj. rewrite (xiL_pure Cops Claws). unfold moppN.
+    now rewrite (exchange_matrix_two kappa i j Hi Hj).
+Qed.
+
+Definition X2 (kappa : R) (st eq : fibre Cops) (t : R) : fibre Cops :=
+  X_fibre 2 (E2 kappa) (E2 kappa) st eq t.
+
+(* UNCONDITIONAL: the closed-form 2-pool operator solves the Bloch-McConnell equations of
+   X(tau, kappa) (no relaxation), starts at the identity, is a semigroup and conserves the total *)
+Theorem two_pool_solves_ode kappa st eq i k tau : (i < 2)%nat ->
+  let Kx := exchange_matrix Cops Cinv (RtoC kappa) 2 None in
+  let XT := xiT_C Kx (fun _ => None) (fun _ => RtoC 0) in
+  let XL := xiL_C Kx (fun _ => None) in
+  derC (fun t => fp (X2 kappa st eq t i k)) tau
+       (@ksum Cops 2 (fun l => Cmult (XT i l) (Cminus (fp (X2 kappa st eq tau l k)) (fp (eq l k))))) /\
+  derC (fun t => fm (X2 kappa st eq t i k)) tau
+       (@ksum Cops 2 (fun l => Cmult (Cconj (XT i l)) (Cminus (fm (X2 kappa st eq tau l k)) (fm (eq l k))))) /\
+  derC (fun t => fz (X2 kappa st eq t i k)) tau
+       (@ksum Cops 2 (fun l => Cmult (XL i l) (Cminus (fz (X2 kappa st eq tau l k)) (fz (eq l k))))).
+Proof.
+  intros Hi Kx XT XL. destruct (two_pool_generators kappa) as [HT HL].
+  exact (X_solves_ode_blocks 2 Kx (fun _ => None) (fun _ => None) (fun _ => RtoC 0) _ _ HT HL st eq i k tau Hi).
+Qed.
+
+Theorem two_pool_initial kappa st eq i k : (i < 2)%nat -> X2 kappa st eq 0 i k = st i k.
+Proof.
+  destruct (two_pool_generators kappa) as [HT HL].
+  exact (X_initial_blocks 2 _ (fun _ => None) (fun _ => None) (fun _ => RtoC 0) _ _ HT HL st eq i k).
+Qed.
+
+Theorem two_pool_semigroup_X kappa st eq i k t1 t2 : (i < 2)%nat ->
+  X2 kappa (X2 kappa st eq t1) eq t2 i k = X2 kappa st eq (t1 + t2) i k.
+Proof.
+  destruct (two_pool_generators kappa) as [HT HL].
+  exact (X_semigroup_blocks 2 _ (fun _ => None) (fun _ => None) (fun _ => RtoC 0) _ _ HT HL st eq i k t1 t2).
+Qed.
+
+Theorem two_pool_conserves kappa st eq k tau :
+  @ksum Cops 2 (fun i => fp (X2 kappa st eq tau i k)) = @ksum Cops 2 (fun i => fp (st i k)) /\
+  @ksum Cops 2 (fun i => fm (X2 kappa st eq tau i k)) = @ksum Cops 2 (fun i => fm (st i k)) /\
+  @ksum Cops 2 (fun i => fz (X2 kappa st eq tau i k)) = @ksum Cops 2 (fun i => fz (st i k)).
+Proof.
+  destruct (two_pool_generators kappa) as [HT HL].
+  refine (proj2 (X_conserves_total_blocks 2 _ (fun _ => None) (fun _ => None) (fun _ => RtoC 0) _ _ HT HL st eq k
+            _ (fun _ => eq_refl) (fun _ => eq_refl) (fun _ => eq_refl)) tau).
+  intros l Hl.
+  assert (N1 : (@knat Cops (2 - 1) * Cinv (@knat Cops (2 - 1)))%C = RtoC 1).
+  { simpl. cnorm. apply injective_projections; simpl; field; lra. }
+  exact (exchange_matrix_colsum Cops Claws Cinv (RtoC kappa) 2 None l Hl N1).
+Qed.
